@@ -22,3 +22,10 @@ CLAIMED["C01"] = (
     _TRUST + " Commands run one at a time here (in-flight concurrency is C10).",
     "DESIGN.md section 4 C01",
 )
+CLAIMED["C04"] = (
+    "exploration",
+    "property-based testing: Hypothesis-generated flag histories (model-based), oracle = reference flag model vs. STORE responses, other sessions' streams at their sync points, observer FETCH FLAGS, SEARCH by flag and the raw .mh_sequences file",
+    "Generated STORE/FETCH/APPEND/COPY/delivery histories over the whole flag alphabet (system flags, \\Recent, odd and colliding keyword atoms) with a reference model; every clause of the property (issuer report, propagation by the next sync point, read-back, SEARCH agreement, Seen/unseen complement, \\Recent untouchable) is evaluated after every step.",
+    _TRUST + " Commands run one at a time; keywords compared case-sensitively.",
+    "DESIGN.md section 4 C04",
+)
